@@ -332,6 +332,9 @@ def check(rep: Report, tier: str, seed: int, prop: str = None):
             jobs.append((dict(D, maxc=1), "sleep0", 2))
         for D in fam_c13()[-26:]:
             jobs.append((D, "sleep0", 3))
+        # the same job families on a 100 ms and a 1 microsecond tick: several scheduled times inside one UTC second
+        for k, D in enumerate(fam_c13()[-26:] if quick else fam_c13()):
+            jobs.append((dict(D, tick_us=100000 if k % 2 == 0 else 1), "sleep0", 4))
         runs = run_impl(jobs)
         slimmed = [slim(r, i + 1) for i, r in enumerate(runs)]
         shards = min(tlc.NCPU, max(1, len(slimmed) // 25))
